@@ -429,6 +429,17 @@ class Executor:
         return self.eval_many(st, e.elts, lambda s, vals: [(s, VTuple(vals))])
 
     def ev_List(self, st, e):
+        if any(isinstance(x, ast.Starred) for x in e.elts):
+            # [*a, x, *b]  ==  list(a) + [x] + list(b)   (a new list)
+            parts = [ast.Call(func=ast.Name(id="list", ctx=ast.Load()), args=[x.value], keywords=[]) if isinstance(x, ast.Starred)
+                     else ast.List(elts=[x], ctx=ast.Load()) for x in e.elts]
+            expr = parts[0]
+            for p_ in parts[1:]:
+                expr = ast.BinOp(left=expr, op=ast.Add(), right=p_)
+            ast.copy_location(expr, e)
+            ast.fix_missing_locations(expr)
+            return self.eval(st, expr)
+
         def k(s, vals):
             ref = s.alloc(ListCell(elem=None, seq=None, items=list(vals)))
             return [(s, ref)]
@@ -586,6 +597,8 @@ class Executor:
                 t = self.eq(st, a, b)
             elif isinstance(a, VRef) and isinstance(b, VRef):
                 t = z3.BoolVal(a.loc == b.loc)
+            elif isinstance(a, VBool) and isinstance(b, VBool):
+                t = a.t == b.t          # True / False are singletons: identity is equality
             else:
                 raise EngineUnsupported("'is' on non-None values")
             return [(st, VBool(z3.Not(t) if neg else t))]
